@@ -755,10 +755,14 @@ class C06(Prop):
         return len(ops_of(e)) >= 2 or any(t[0] != "IDENT" and t[0] in LITKIND.values() for t in toks(e))
 
     def known_preds(self):
-        return {
-            "empty_list_literal": lambda c: c.get("kind") != "word" and has_empty_list(c["e"]),
-            "int_literal_before_dot": lambda c: c.get("kind") != "word" and int_before_dot(c["e"]) and not has_empty_list(c["e"]),
-        }
+        def empty_list(c):
+            # only the dump part may fail on such a case: a wrong grouping of an expression that happens to
+            # contain `[]` is still reported
+            if c.get("kind") == "word" or not has_empty_list(c["e"]):
+                return False
+            msg = self.oracle(c, self.impl(c))
+            return msg is not None and msg.startswith("dump ")
+        return {"empty_list_literal": empty_list}
 
     # -- generation ------------------------------------------------------------------------------
     def generate(self, rng, tier):
@@ -799,6 +803,8 @@ class C06(Prop):
                 f = drop_parens(e, rng, rng.choice([0.3, 0.7, 1.0]))
                 if f != e:
                     cases.append({"kind": "regroup", "e": f, "ws": rng.randrange(1 << 30)})
+        # small inputs first, so that the first failing input reported is a small one
+        cases.sort(key=lambda c: 0 if c["kind"] == "word" else len(toks(c["e"])))
         return cases
 
     def search_cases(self, rng):
